@@ -243,8 +243,14 @@ package repository
 // Pushing and fetching add the tracking refspec to the remote's configuration in memory only: the stored
 // configuration of the host repository is never written by them (C15: no foreign configuration key is touched).
 //@ func (*GoGitRepo).PushRefs
+//@   props C15
+//@   stable git.configWrites
+//@   ensures [configuration-not-written] git.configWrites == old(git.configWrites)
+// ... and a fetch brings in the refs of the namespaces asked for and nothing else: it must not let go-git follow
+// tags, which would create refs/tags/* of the remote in the host repository (C15: no other ref is ever created).
 //@ func (*GoGitRepo).FetchRefs
 //@   props C15
+//@   opt hostrefs
 //@   stable git.configWrites
 //@   ensures [configuration-not-written] git.configWrites == old(git.configWrites)
 //@ func (*GoGitRepo).LocalStorage
